@@ -42,10 +42,16 @@ def regenerate_src():
         try:
             OT = srcobj.ObjTranslator(T, "ASAM::CMP::Encoder")
             OT.run()
-            otext = ("/- GENERATED on every run by vlib/srcobj.py from the typed clang AST of /repo/src/encoder.cpp — do not edit. -/\n"
+            OP = srcobj.ObjTranslator(T, "ASAM::CMP::Packet")
+            OP.run()
+            OS = srcobj.ObjTranslator(T, "ASAM::CMP::Decoder::SegmentedPacket")
+            OS.run()
+            OS.run_ctors()
+            otext = ("/- GENERATED on every run by vlib/srcobj.py from the typed clang AST of /repo/src/encoder.cpp, packet.cpp and decoder.cpp — do not edit. -/\n"
                      "import AsamCmp.GeneratedSrc\nimport AsamCmp.Src.Obj\nset_option linter.unusedVariables false\nnamespace AsamCmp.SrcGen\n"
-                     "open AsamCmp AsamCmp.Src\n\n" + OT.emit() + "\nend AsamCmp.SrcGen\n")
-            note += "; GeneratedSrcObj.lean: %d Encoder methods translated as state transformers, %d not" % (len(OT.order), len(OT.failed))
+                     "open AsamCmp AsamCmp.Src\n\n" + OT.emit() + "\n" + OP.emit() + "\n" + OS.emit() + "\nend AsamCmp.SrcGen\n")
+            note += "; GeneratedSrcObj.lean: %d Encoder, %d Packet, %d Decoder::SegmentedPacket methods translated as state transformers (%d / %d / %d not)" % (
+                len(OT.order), len(OP.order), len(OS.order), len(OT.failed), len(OP.failed), len(OS.failed))
         except srctrans.Untranslatable as e:
             otext = "/- GENERATED: the object translator could not run: %s -/\nimport AsamCmp.Src.Obj\nnamespace AsamCmp.SrcGen\nend AsamCmp.SrcGen\n" % str(e).replace("-/", "- /")[:400]
             note += "; GeneratedSrcObj.lean: object translator failed (%s)" % str(e)[:120]
